@@ -1549,6 +1549,9 @@ class BaseSpaceImpl(*_base_space_impl_base):
             cells.on_delete()
         for ref in self.own_refs.values():  # Values read through attributes
             self.model.clear_attr_referrers(ref)
+        for ref in self.model.global_refs.values():
+            # A model-level reference may have been read through self
+            self.model.clear_attr_referrers(ref)
         super().on_delete()
 
 
@@ -1985,6 +1988,8 @@ class UserSpaceImpl(*_user_space_impl_base):
         """Clear the values read through the references in self's tree"""
         for ref in self.own_refs.values():
             self.model.clear_attr_referrers(ref)
+        for cells in self.cells.values():
+            self.model.clear_obj(cells)     # Node of an uncached cells
         for space in self.named_spaces.values():
             space.clear_refs_referrers()
 
@@ -1992,6 +1997,9 @@ class UserSpaceImpl(*_user_space_impl_base):
         self.model.clear_obj(self)
         self.clear_all_cells(clear_input=True, recursive=True, del_items=True)
         self.clear_refs_referrers()
+        for ref in self.model.global_refs.values():
+            # A model-level reference may have been read through self
+            self.model.clear_attr_referrers(ref)
         old_name = self.name
         self.name = name
         self.parent.named_spaces.rename_item(old_name, name)
